@@ -82,8 +82,11 @@ def check_vcd(name,Top,seed,ncycles=8):
     if tw is not None:
       for nm in syms:
         rec=tw.get(nm)
-        if rec is None or syms[nm]==clk: continue
-        for t in range(min(ncycles,len(rec))):
+        if syms[nm]==clk: continue
+        if nm!='s.reset' and nm.split('.')[-1] in('clk','reset'): continue       # by design the text wave keeps one clock/reset (they are one net)
+        if rec is None or len(rec)<ncycles:
+          out.append(f"the text-wave record holds {0 if rec is None else len(rec)} cycles of {nm}, {ncycles} cycles were simulated"); break
+        for t in range(ncycles):
           s_=rec[t]; v=int(s_[2:],2) if s_.startswith('0b') else int(s_,2)
           if v!=snaps[t][nm]: out.append(f"cycle {t}: the text-wave record gives {nm} = {v} but the simulator held {snaps[t][nm]}"); break
   finally:
@@ -153,7 +156,29 @@ class Top( Component ):
     def ff_r(): s.r <<= s.mask
     s.q //= s.r
 '''
+IFC='''
+class BusIfc( Interface ):
+  def construct( s, T ):
+    s.msg = InPort( T ); s.val = InPort( Bits1 ); s.rdy = OutPort( Bits1 )
+
+class Leaf( Component ):
+  def construct( s ):
+    s.reqs = BusIfc( Bits8 ); s.as_ = OutPort( Bits8 ); s.s = Wire( Bits8 )
+    @update
+    def up_leaf():
+      s.reqs.rdy @= ~s.reqs.val
+      s.s @= s.reqs.msg + 1
+      s.as_ @= s.s
+
+class Top( Component ):
+  def construct( s ):
+    s.bus = BusIfc( Bits8 ); s.ios = [ BusIfc( Bits8 ) for _ in range(2) ]; s.out = OutPort( Bits8 ); s.outs = [ OutPort( Bits8 ) for _ in range(2) ]
+    s.cs = [ Leaf() for _ in range(2) ]; s.ss = Leaf()
+    s.ss.reqs.msg //= s.bus.msg; s.ss.reqs.val //= s.bus.val; s.bus.rdy //= s.ss.reqs.rdy; s.out //= s.ss.as_
+    for i in range(2):
+      s.cs[i].reqs.msg //= s.ios[i].msg; s.cs[i].reqs.val //= s.ios[i].val; s.ios[i].rdy //= s.cs[i].reqs.rdy; s.outs[i] //= s.cs[i].as_
+'''
 def vcd_designs():
   from zoo import designs
-  out=[(n,b) for n,b in designs.family_A()[::9]]+list(designs.family_C())+[("V[delay96]",EXTRA%(96,96)),("V[delay10]",EXTRA%(10,10)),("V[wide64]",WIDE)]
+  out=[(n,b) for n,b in designs.family_A()[::9]]+list(designs.family_C())+[("V[delay96]",EXTRA%(96,96)),("V[delay10]",EXTRA%(10,10)),("V[wide64]",WIDE),("V[interfaces]",IFC)]
   return out
